@@ -971,6 +971,17 @@ example : ∃ s ∈ qsites, s.isPanic = true ∧ ∃ r ∈ queryRoots, inSet que
   refine ⟨qsites.find? (·.isPanic) |>.get (by decide +kernel), List.mem_of_find?_eq_some (Option.some_get _).symm, ?_⟩
   decide +kernel
 
+/-- **no optional part of a query request is dereferenced without a nil test** (round 5): gogoproto decodes an absent message-typed
+field (`pagination`, …) to a nil pointer; getter methods are nil-safe, a field selection through the pointer is not.  In every
+function a gRPC query method reaches, every field selection through a pointer-typed field of a `*Query…Request` parameter is
+dominated by a nil test of that pointer.  (On the pinned tree the code uses getters and hands `req.Pagination` on as a whole,
+so the regenerated list is empty; `qreqParams` counts the request parameters that were inspected, and the examples show what
+the check rejects — e.g. a page-size cap `if req.Pagination.Limit > 100 {…}` without a test.) -/
+theorem query_request_pointers_nil_checked : qderefs.all (·.guarded) = true ∧ 40 ≤ qreqParams := by decide
+
+example : ([⟨1, "req.Pagination.Limit", "req.Pagination", false⟩] : List QDeref).all (·.guarded) = false := by decide
+example : ([⟨1, "req.Pagination.Limit", "req.Pagination", true⟩] : List QDeref).all (·.guarded) = true := by decide
+
 /-- **the IBC middleware's callbacks are in the same inventory** (round 5): every `OnRecvPacket` / `OnAcknowledgementPacket` /
 `OnTimeoutPacket` of the fx-core module is a transaction-level root (they run inside `MsgRecvPacket` / `MsgAcknowledgement` /
 `MsgTimeout`, i.e. under the transaction runner), so `handler_panic_contained` and `handler_sites_disposed` speak about every
